@@ -107,7 +107,7 @@ func init() {
 		"strings.ToTitle": strings.ToTitle, "strings.LastIndexByte": strings.LastIndexByte, "strings.LastIndexAny": strings.LastIndexAny,
 		"strings.SplitAfter": strings.SplitAfter, "strings.SplitAfterN": strings.SplitAfterN, "strings.TrimFunc": nil,
 		"strings.ContainsAny": strings.ContainsAny, "strings.ToValidUTF8": strings.ToValidUTF8, "strings.CutPrefix": strings.CutPrefix,
-		"strings.CutSuffix": strings.CutSuffix, "strings.EqualFold": strings.EqualFold,
+		"strings.CutSuffix": strings.CutSuffix, "strings.EqualFold": strings.EqualFold, "strings.NewReplacer": strings.NewReplacer,
 		"strconv.ParseBool": strconv.ParseBool, "strconv.FormatUint": strconv.FormatUint, "strconv.Unquote": strconv.Unquote,
 		"strconv.QuoteToASCII": strconv.QuoteToASCII, "strconv.AppendInt": nil, "strconv.FormatFloat": strconv.FormatFloat,
 		"bytes.Contains": bytes.Contains, "bytes.HasPrefix": bytes.HasPrefix, "bytes.HasSuffix": bytes.HasSuffix, "bytes.TrimSpace": bytes.TrimSpace,
